@@ -180,5 +180,14 @@ theorem plan_acts_segOk {v : Variant} {p N C : Nat} {op : Op} {pl : Plan} (h : p
     split at h
     · exact planGate_acts_segOk h
     · cases h
+  | measNS targets =>
+    intro a ha
+    simp only [plan] at h
+    split at h
+    · split at h
+      · cases h
+      · cases h
+        exact (updSingleq_w (drawSingleq_w p ['M']) _ a ha).ok
+    · split at h <;> cases h
 
 end QipVerif.Render
